@@ -13,6 +13,7 @@ import (
 	"sort"
 	"strings"
 	"sync"
+	"sync/atomic"
 	"time"
 
 	"github.com/milvus-io/milvus-proto/go-api/v2/commonpb"
@@ -89,7 +90,22 @@ var (
 	parkedCh = make(chan *msgstream.MsgPack, 16)
 )
 
+// schedule control of the channel manager (mode c16m, hook H9): waiting handlers are held between their receive and the manager lock
+var (
+	waitHold    atomic.Bool
+	waitParked  = make(chan struct{}, 16)
+	waitRelease chan struct{}
+)
+
 func yieldHook(point string, pack *msgstream.MsgPack) {
+	if point == "wait-recv" {
+		if waitHold.Load() {
+			rel := waitRelease
+			waitParked <- struct{}{}
+			<-rel
+		}
+		return
+	}
 	if point == "done" {
 		select {
 		case doneCh <- done{point, pack}:
@@ -613,6 +629,7 @@ func main() {
 	if *mode == "c16m" {
 		out := cq.NewOut(a.Out, "From Verif Require Import C16.Manager C16.MCheck.", "mcase", 8)
 		mappingCorpus(out)
+		runRace(out)
 		for id := 0; id < a.N; id++ {
 			ns, nt, os := genMapping(a)
 			runMapping(out, ns, nt, os, "random", id%3 == 2)
